@@ -101,7 +101,7 @@ Inductive tev :=
 | VStart (t code : N) | VCb (t e0 e1 e2 code : N) | VBon (t : N)
 | VSpawn (b : N) | VFin (b : N) | VEnd (b : N) (finished : bool) | VReturn (b : N)
 | VOpDone (k : N) | VCall (k p : N) | VLift (k : N)
-| VFwait (j b : N) | VWflag (j : N) | VXwake (j : N)
+| VFwait (j b : N) | VWflag (j : N) | VXwake (j : N) | VYieldStep (b : N)
 | VCtxGet (t : N) (null : bool) | VCtxSet (t : N) (null : bool) | VCtxObs (t : N) (null : bool).
 
 Record world := mkW {
@@ -153,6 +153,7 @@ Definition T_FWAIT := 112.
 Definition T_WFLAG := 113.
 Definition T_XWAKE := 114.
 Definition T_PRESTART := 115.
+Definition T_YSTEP := 116.
 
 (** ** Updates *)
 Definition set_host x w := mkW x (w_tasks w) (w_ops w) (w_flags w) (w_waiters w) (w_spawned w) (w_cur w) (w_script w) (w_deadlocks w) (w_err w) (w_created w) (w_trace w).
@@ -193,6 +194,7 @@ Definition ev_call (x : tev) : hostcall :=
   | VFwait j b => HNote T_FWAIT [j; b]
   | VWflag j => HNote T_WFLAG [j]
   | VXwake j => HNote T_XWAKE [j]
+  | VYieldStep b => HNote T_YSTEP [b]
   | VCtxGet t n | VCtxObs t n => HCtxGet t n
   | VCtxSet t n => HCtxSet t n
   end.
@@ -507,7 +509,7 @@ Fixpoint run_steps (e : env) (t : N) (bd : body) (wr : wref) (steps : list step)
       if negb (op_fresh e k w) then run_steps e t bd wr r w else
       let (w, rdy) := await_op_full e t k wr w in
       if rdy then run_steps e t bd wr r w else (w, susp (AwOp k) r, false)
-  | SYield :: r => (wake e wr w, susp AwYield r, false)
+  | SYield :: r => (wake e wr (emit (VYieldStep (b_id bd)) w), susp AwYield r, false)
   | SSpawn b' :: r =>
       if nmem b' (w_created w) || negb (cf_spawn (e_cfg e)) then run_steps e t bd wr r w
       else
